@@ -314,7 +314,7 @@ PROPS = {
     },
     "C16": {
         "level": "exploration",
-        "groups": [g("main", "c16", q=8, t=32, run="^Test(Prop|Volume)$", gomaxprocs=[4, 1, 2, 16])],
+        "groups": [g("main", "c16", q=8, t=32, run="^Test(Prop|Volume|CloseMid)$", gomaxprocs=[4, 1, 2, 16])],
         "timeout": {"quick": 300, "thorough": 1800},
         "rule": ("generated: 1-16 concurrent callers (SendCall, SendReplyCall, SendCallAndWaitReplayCall) with unique payload markers over iscp.Connect "
                  "and the in-memory broker (both codecs); the broker collects all calls, then emits acks (positive, or negative for chosen callers) "
